@@ -33,6 +33,15 @@ def classify(fm, hist, r):
     last = hist[-1] if hist else 'open'
     kind = last[:2]
     reason = (r.get('P') or '').split(':')[1] if (r.get('P') or '').startswith('bad') else 'x'
+    if kind in ('ps', 'pp', 'ts', 'tp') and reason == 'pcm':
+        # named predicate: the seek landed exactly on the start of a link whose first audio page has no granule position
+        T = r.get('T', -1)
+        for k, l in enumerate(fm.lt):
+            if T == fm.start[k] and k < fm.nl:
+                ours = [p for p in fm.pages[l['first']:l['last'] + 1] if p.serial == fm.links[k]['serial']]
+                audio = [p for p in ours if p.offset >= fm.desc['links'][k]['dataoffset']] if fm.desc.get('open') else []
+                if audio and audio[0].gran == -1:
+                    return 'seek_to_link_start_first_packet_spans_pages'
     if kind == 'rs':
         o = int(last[2:])
         for k, l in enumerate(fm.lt):
